@@ -97,6 +97,7 @@ def run(ctx):
             rep.unk('T3', 'a_poly_swap_', str(e))
     # bounded cross-check of the wrappers a_poly_eval/evar/swap (concrete lengths 1..6, symbolic coefficients)
     hdr_checks(ctx, x)
+    swap_wrapper(ctx)
     rep.floor('T1', 18)
     rep.floor('T2', 10)
     rep.floor('T2e', 10)
@@ -430,6 +431,43 @@ def hdr_checks(ctx, x):
                 rep.ok('T3w', '%s[n=%d]' % (fname, n), 'value = sum a[k] x^%s' % ('k' if not rev else '(n-1-k)'))
             else:
                 rep.bad('T3w', '%s[n=%d]' % (fname, n), 'value %s, expected %s' % (got, want), key='%s: wrapper value' % fname)
+
+
+def swap_wrapper(ctx):
+    """a_poly_swap(a, n): the count-based form of the reversal - for n = 0..6 the array ends up reversed (nothing happens for n <= 1)"""
+    rep = ctx.rep
+    poly = ctx.module('poly')
+    lk = lookup_in([poly, ctx.module('hdr_unit')])
+    fn = ctx.fn('poly', 'a_poly_swap') or ctx.fn('hdr_unit', 'a_poly_swap')
+    if fn is None:
+        rep.unk('T3w', 'a_poly_swap', 'anchor vanished')
+        return
+    for n in range(0, 7):
+        sym = 'a_poly_swap[n=%d]' % n
+        dom = alg.Alg()
+        it = symx.Interp(dom, lk)
+        try:
+            leaves = it.run(fn, [Ptr('arr', 0), n])
+        except Unsupported as e:
+            rep.unk('T3w', sym, str(e))
+            continue
+        if len(leaves) != 1:
+            rep.unk('T3w', sym, '%d paths' % len(leaves))
+            continue
+        st = leaves[0].store
+        bad = []
+        for k in range(n):
+            want = dom.sym('arr[%d]' % (8 * (n - 1 - k)), real=True)
+            got = st[('arr', 8 * k)][0] if ('arr', 8 * k) in st else dom.sym('arr[%d]' % (8 * k), real=True)
+            if not alg.is_zero(sp.sympify(got) - want):
+                bad.append('a[%d] becomes %s, expected the old a[%d]' % (k, got, n - 1 - k))
+        extra = [k_ for k_ in st if k_[0] == 'arr' and not (0 <= k_[1] < 8 * n)]
+        if extra:
+            bad.append('writes outside the %d coefficients (%s)' % (n, sorted(k_[1] for k_ in extra)))
+        if bad:
+            rep.bad('T3w', sym, '; '.join(bad[:2]), key='a_poly_swap: wrapper')
+        else:
+            rep.ok('T3w', sym, 'the %d coefficients end up in reverse order' % n)
 
 
 def fixtures(ctx):
